@@ -163,4 +163,28 @@ PropLists == { es \in UNION { [1..n -> PElems \cup PJunk] : n \in 0..2 } : TRUE 
              \cup { <<a, b, c>> : a \in {PPair(PKa, SmallInt(1)), PKa}, b \in {PPair(PKa, VNil), PPair(PKb, PInner), SmallInt(7)}, c \in {PFlag, PPair(PKb, PTrue), PPair(PKa, PInner)} }
 PropCases == { [list |-> MkList(es, VNil), well_formed |-> (\A i \in 1..Len(es) : IsPair(es[i]) \/ IsAtomV(es[i])), dup |-> HasDupKeys(es),
                 map |-> ToMapSet(es), normalized |-> MkList(Normalized(es), VNil), recursive |-> ToMapRec(MkList(es, VNil))] : es \in PropLists }
+\* ------------------------------------------------------------------ builders (edp_elixir_terms builders.rs)
+\* A builder is the fold of the calls made on it.  The keyword-list builder appends one pair per effective call (duplicates kept, in call order);
+\* the atom-key-map builder holds, per key, the value of the last effective call ("Replaces existing values"; extend is a sequence of inserts,
+\* whatever the sizes of the builder and of the extension).  put_if / put_some with a false condition / None change nothing.
+BKey(k) == VAtom(CASE k = "a" -> <<97>> [] k = "b" -> <<98>> [] k = "c" -> <<99>> [] OTHER -> <<100>>)
+BAtomX == VAtom(<<120>>)
+BOp(o, k, n, on, ps) == [op |-> o, key |-> k, val |-> n, on |-> on, pairs |-> ps]
+BExtensions == { <<>>, << <<"a", 7>> >>, << <<"a", 7>>, <<"b", 8>> >>, << <<"a", 7>>, <<"b", 8>>, <<"c", 9>> >>,
+                 << <<"b", 8>>, <<"a", 7>>, <<"a", 9>> >>, << <<"c", 9>>, <<"b", 8>>, <<"a", 7>>, <<"d", 6>> >> }
+BOps == { BOp("put", k, n, TRUE, <<>>) : k \in {"a", "b"}, n \in {1, 2} }
+        \cup { BOp("put_atom", "a", 0, TRUE, <<>>), BOp("put_flag", "b", 0, TRUE, <<>>) }
+        \cup { BOp(o, "a", 3, on, <<>>) : o \in {"put_if", "put_some"}, on \in BOOLEAN }
+        \cup { BOp("extend", "-", 0, TRUE, ps) : ps \in BExtensions }
+BPairsOf(o) == CASE o.op = "put" -> << <<BKey(o.key), SmallInt(o.val)>> >>
+                 [] o.op = "put_atom" -> << <<BKey(o.key), BAtomX>> >>
+                 [] o.op = "put_flag" -> << <<BKey(o.key), PTrue>> >>
+                 [] o.op \in {"put_if", "put_some"} -> IF o.on THEN << <<BKey(o.key), SmallInt(o.val)>> >> ELSE <<>>
+                 [] OTHER -> [i \in 1..Len(o.pairs) |-> <<BKey(o.pairs[i][1]), SmallInt(o.pairs[i][2])>>]
+RECURSIVE BAll(_)
+BAll(os) == IF os = <<>> THEN <<>> ELSE BPairsOf(Head(os)) \o BAll(Tail(os))
+BuilderCases == { LET all == BAll(os) IN
+                  [ops |-> os, keyword |-> MkList([i \in 1..Len(all) |-> PPair(all[i][1], all[i][2])], VNil),
+                   map |-> { all[i] : i \in {j \in 1..Len(all) : \A m \in (j + 1)..Len(all) : all[m][1] # all[j][1]} }]
+                  : os \in UNION { [1..n -> BOps] : n \in 0..3 } }
 =============================================================================
